@@ -3,6 +3,7 @@
 // on lanes filled with distinct random bit patterns, compared with memcmp.
 // Compile-time masks are template instantiations: the family below is fixed at build time
 // (VH_MASKS_FULL adds the exhaustive <=4-lane sweeps and more pseudo-random masks).
+#include "../common/shufgen.hpp"
 #include "../common/vcheck.hpp"
 #include "../common/accept.hpp"
 using namespace vh;
@@ -108,6 +109,7 @@ struct G4
     static constexpr size_t get(size_t i, size_t n) { return n == 4 ? ((K >> (2 * i)) & 3) : n == 2 ? ((K >> i) & 1) : i; }
 };
 // ---- shuffle index generators (values in [0, 2n))
+// (the near-fast-path family SNear<Shape, Variant, Pos, Kind> lives in common/shufgen.hpp)
 template <unsigned S>
 struct SRand
 {
@@ -344,6 +346,39 @@ static void cshuf(Rng& rng, const char* gname)
             once = true;
             note_na("C05", "shuffle", tname<T>(), (std::string("mask family ") + gname + " reduces to a swizzle/zip this arch/type does not accept").c_str());
         }
+    }
+}
+
+// packs on / one index away from the in-lane fast-path shapes of the sse/avx/avx512 shuffle kernels
+template <class T, unsigned Shape, unsigned Variant, size_t... P>
+static void cshuf_near(Rng& rng, std::index_sequence<P...>)
+{
+    constexpr size_t N = xs::batch<T, ARCH>::size;
+    static const std::string nm = "SNear<shape" + std::to_string(Shape) + ",variant" + std::to_string(Variant) + ">";
+    cshuf<T, SNear<Shape, Variant, N, 0>>(rng, (nm + "base").c_str());
+    (cshuf<T, SNear<Shape, Variant, P, 0>>(rng, (nm + "other_source@" + std::to_string(P)).c_str()), ...);
+    (cshuf<T, SNear<Shape, Variant, P, 1>>(rng, (nm + "other_lane@" + std::to_string(P)).c_str()), ...);
+    cshuf<T, SNear<Shape, Variant, 0, 2>>(rng, (nm + "next_in_lane@0").c_str());
+    cshuf<T, SNear<Shape, Variant, N - 1, 2>>(rng, (nm + "next_in_lane@last").c_str());
+}
+template <class T>
+static void cshuf_near_all(Rng& rng)
+{
+    if constexpr (sizeof(T) >= 4)
+    {
+        using Seq = std::make_index_sequence<xs::batch<T, ARCH>::size>;
+        cshuf_near<T, 0, 0>(rng, Seq {});
+        cshuf_near<T, 1, 0>(rng, Seq {});
+        cshuf_near<T, 2, 0>(rng, Seq {});
+        cshuf_near<T, 3, 0>(rng, Seq {});
+#ifdef VH_MASKS_FULL
+        cshuf_near<T, 0, 1>(rng, Seq {});
+        cshuf_near<T, 1, 1>(rng, Seq {});
+        cshuf_near<T, 2, 1>(rng, Seq {});
+        cshuf_near<T, 3, 1>(rng, Seq {});
+        cshuf_near<T, 0, 2>(rng, Seq {});
+        cshuf_near<T, 2, 2>(rng, Seq {});
+#endif
     }
 }
 
@@ -779,6 +814,7 @@ static void all_ops(uint64_t seed)
     SH(SRand<4>)
     SH(SRand<5>)
     SH(SRand<6>)
+    cshuf_near_all<T>(rng);
 #ifdef VH_MASKS_FULL
     SH(SRand<7>)
     SH(SRand<8>)
